@@ -41,7 +41,9 @@ cls("_DatasetFillerContext", _dataset_root_path="U", _dataset_structure="ref:Dat
 cls("Metadata", description="U", dataset_license="U", dataset_version="U", download_from="U",
     custom_metadata="ref:DictObj", sedpack_version="U")
 cls("DatasetInfo", metadata="ref:Metadata", dataset_structure="ref:DatasetStructure",
-    splits="dict:ref:ShardListInfo")
+    splits="dict:ref:ShardListInfo",
+    _order=["metadata", "dataset_structure", "splits"],
+    _defaults={"metadata": "NEW_OBJ('Metadata')", "dataset_structure": "NEW_OBJ('DatasetStructure')", "splits": "EMPTY_DICT_REF('ShardListInfo')"})
 cls("DatasetBase", path="U", _dataset_info="ref:DatasetInfo")
 cls("DatasetIteration", base="DatasetBase")
 cls("DatasetWriting", base="DatasetBase")
